@@ -645,7 +645,30 @@ func (c *Ctx) removeSingleForms() {
 	}
 	clause := "removing single-child nodes ... leave every path length between pre-existing tips unchanged"
 	nl, ns := 0, 0
-	for _, st := range c.fieldStores(info, fi.Decl.Body, nil) {
+	type unitStore struct {
+		st   fieldStore
+		info *types.Info
+		body *ast.BlockStmt
+		env  *lfEnv
+	}
+	var stores []unitStore
+	for _, u := range c.lfUnits(fi) {
+		// the function itself, and the helpers it hands the per-child work to (parameters read as the
+		// caller's arguments)
+		if u.fi != fi && u.fi.Obj == fi.Obj {
+			continue
+		}
+		var o *canonOpts
+		if u.fi != fi {
+			o = u.env.o
+		}
+		for _, st := range c.fieldStores(u.fi.Pkg.TypesInfo, u.fi.Decl.Body, o) {
+			stores = append(stores, unitStore{st, u.fi.Pkg.TypesInfo, u.fi.Decl.Body, u.env})
+		}
+	}
+	for _, us := range stores {
+		st, info, env := us.st, us.info, us.env
+		ubody := us.body
 		switch st.field.Name() {
 		case "length":
 			nl++
@@ -660,7 +683,7 @@ func (c *Ctx) removeSingleForms() {
 			}
 			c.Check(p.equal(want), "LF", name+"/length", st.pos, "surviving branch length = "+p.String(), "surviving branch gets "+p.String()+", must be its own length plus the removed branch's ("+want.String()+")").Clause = clause
 			// guard: both present
-			conds, okc := c.pathConds(info, fi.Decl.Body, st.node, true)
+			conds, okc := c.pathConds(info, ubody, st.node, true)
 			var rel []cond
 			for _, cd := range conds {
 				if cd.Expr != nil && strings.Contains(c.canon(info, cd.Expr, env.o), "NIL_LENGTH") {
